@@ -334,6 +334,11 @@ func oneLogin(r *core.Run) {
 		r.Fail("C15", "decode", reqSite, "error", "the server cannot decode the login: %v", err)
 		return
 	}
+	// the server logs the login before it verifies it
+	if p := r.Call(reqSite+".String", func() { _ = got.String() }); p != nil {
+		r.Fail("C15", "panic", p.Frame, "String/"+p.Kind, "logging the received login before verifying it panicked: %s", p.Value)
+		return
+	}
 	var rcvAcc, rcvAuth string
 	var rcvTS uint32
 	switch v := got.(type) {
@@ -439,6 +444,10 @@ func oneLogin(r *core.Run) {
 	gotResp := ctor[respSite]()
 	if p := r.Call(respSite+".IDecode", func() { err = gotResp.IDecode(frames[0]) }); p != nil || err != nil {
 		r.Fail("C15", "decode", respSite, "error", "the client cannot decode the login response: %v", err)
+		return
+	}
+	if p := r.Call(respSite+".String", func() { _ = gotResp.String() }); p != nil {
+		r.Fail("C15", "panic", p.Frame, "String/"+p.Kind, "logging the received login response before verifying it panicked: %s", p.Value)
 		return
 	}
 	var rcvSrvAuth string
